@@ -190,6 +190,11 @@ def exercise_library():
             r'\section{A} text \textbf x \def\foo{1} $a \cup b$ \noindent more \alpha\beta',
             r'\begin{itemize}\bullet one \alpha two\item[x] {y} b\end{itemize} and \beta{x} \gamma',
             r'\newcommand{\eeq}{\end{equation}} \cmd{a}{a}{b} \begin{lstlisting}\end{lstlisting}',
+            # a "style file": redefinitions of operators, of commands with a
+            # fixed signature and of the reader's keywords must stay local to
+            # the document that contains them
+            r'\renewcommand{\cup}[2]{#1 \sqcup #2}\renewcommand{\in}[1]{\ni #1}\newcommand{\textbf}[3]{#1}'
+            r'\providecommand{\infty}[1]{x}\newcommand{\foo}[2][d]{#1#2}\renewcommand{\item}[1]{#1}\def\begin{b}',
             '{', r'\begin{a}', '$', r'\item', r'\begin{equation}\item x\end{equation}', 'a\x00b\\']
     for d in docs:
         for tol in (0, 1):
